@@ -165,3 +165,49 @@ def gen_mixtures(m, rng, job):
             o['shape'] = []
         run(m, o, oplist)
     return oplist, {}
+
+
+# ---- the same history spelled two ways ------------------------------------------------------------
+CLASSES = [
+    # each: alternative spellings (python forms) of one denotation, and the denotation
+    ([{'k': 'fmt', 'v': 'BOLD'}, {'k': 'str', 'v': 'bold'}, {'k': 'int', 'v': 1}, {'k': 'str', 'v': 'Bold'}, {'k': 'str', 'v': '1'}], ['1']),
+    ([{'k': 'fmt', 'v': 'FG_RED'}, {'k': 'str', 'v': 'red'}, {'k': 'int', 'v': 31}, {'k': 'str', 'v': 'FG RED'}, {'k': 'str', 'v': 'fg-red'}], ['31']),
+    ([{'k': 'fmt', 'v': 'FG_BLUE'}, {'k': 'str', 'v': 'blue'}, {'k': 'int', 'v': 34}, {'k': 'list', 'v': [{'k': 'str', 'v': 'BLUE'}]}], ['34']),
+    ([{'k': 'call', 'fn': 'rgb', 'v': [10, 20, 30]}, {'k': 'str', 'v': 'rgb(10,20,30)'}, {'k': 'str', 'v': 'rgb(0x0A, 0x14, 0x1E)'},
+      {'k': 'str', 'v': 'fg_rgb([10, 20, 30])'}, {'k': 'list', 'v': [{'k': 'int', 'v': 38}, {'k': 'int', 'v': 2}, {'k': 'int', 'v': 10}, {'k': 'int', 'v': 20}, {'k': 'int', 'v': 30}]},
+      {'k': 'str', 'v': '38;2;10;20;30'}, {'k': 'call', 'fn': 'rgb', 'v': [0x0A141E]}], ['38;2;10;20;30']),
+    ([{'k': 'call', 'fn': 'bg_color256', 'v': [7]}, {'k': 'str', 'v': 'bg_color256(7)'}, {'k': 'str', 'v': 'bg_colour256(0x7)'},
+      {'k': 'str', 'v': '48;5;7'}, {'k': 'tuple', 'v': [{'k': 'int', 'v': 48}, {'k': 'int', 'v': 5}, {'k': 'int', 'v': 7}]}], ['48;5;7']),
+    ([{'k': 'fmt', 'v': 'UL_RED'}, {'k': 'str', 'v': 'ul_red'}, {'k': 'str', 'v': 'UL-RED'}], ['4', '58;5;9']),
+    ([{'k': 'call', 'fn': 'ul_rgb', 'v': [1, 2, 3]}, {'k': 'str', 'v': 'ul_rgb(1,2,3)'}, {'k': 'str', 'v': 'ul_rgb(0x010203)'}], ['4', '58;2;1;2;3']),
+    ([{'k': 'fmt', 'v': 'NO_BOLD_FAINT'}, {'k': 'str', 'v': 'no bold faint'}, {'k': 'int', 'v': 22}], ['22']),
+]
+
+
+def gen_spelled_history(m, rng, job):
+    """One random history of apply/remove operations executed twice from the same text - every settings argument spelled
+    in one way on the first object and in another way on the second - then the two objects are compared."""
+    oplist = []
+    text = ''.join(rng.choice('ab -') for _ in range(rng.randint(3, 8)))
+    n = len(text)
+    ra = run(m, {'op': 'new', 'cls': 'S', 'text': text, 'sets': [], 'S': []}, oplist)['res'][0]
+    rb = run(m, {'op': 'new', 'cls': 'S', 'text': text, 'sets': [], 'S': []}, oplist)['res'][0]
+    fav = rng.sample(range(len(CLASSES)), 3)
+    fixed = {}          # spelling used on each side for a class (the same spelling is reused: shared-object bugs need that)
+    for _ in range(rng.randint(2, job.get('nops', 6))):
+        ci = rng.choice(fav) if rng.random() < 0.8 else rng.randrange(len(CLASSES))
+        forms, S = CLASSES[ci]
+        if ci not in fixed or rng.random() < 0.2:
+            fixed[ci] = rng.sample(forms, 2)
+        fa, fb = fixed[ci]
+        a_ = rng.randint(0, n - 1)
+        b_ = rng.randint(a_ + 1, n)
+        if rng.random() < 0.75:
+            top = rng.random() < 0.7
+            for r_, f in ((ra, fa), (rb, fb)):
+                run(m, {'op': 'apply', 'r': r_, 'sets': [f], 'S': S, 'start': a_, 'end': b_, 'top': top}, oplist)
+        else:
+            for r_, f in ((ra, fa), (rb, fb)):
+                run(m, {'op': 'remove', 'r': r_, 'sets': [f], 'S': S, 'start': a_, 'end': b_}, oplist)
+        run(m, {'op': 'twincheck', 'a': [ra], 'b': [rb], 'tag': 'spell'}, oplist)
+    return oplist, {}
